@@ -13,13 +13,15 @@ pub struct V<'a> {
     pub errs: Vec<(String, String)>,
     pub legacy_seen: bool,
     path: Vec<String>,
+    /// set while the outer (policy) map of a mint field is read
+    mint_outer: bool,
 }
 
 type R = ();
 
 impl<'a> V<'a> {
     pub fn new(src: &'a [u8], builder_mode: bool) -> V<'a> {
-        V { src, builder_mode, errs: vec![], legacy_seen: false, path: vec![] }
+        V { src, builder_mode, errs: vec![], legacy_seen: false, path: vec![], mint_outer: false }
     }
     fn err(&mut self, kind: &str, msg: String) {
         let p = self.path.join(".");
@@ -148,7 +150,10 @@ impl<'a> V<'a> {
                 for i in 0..m.len() {
                     for j in 0..i {
                         if self.span(&m[i].0) == self.span(&m[j].0) {
-                            self.err("duplicate-map-key", format!("key {} occurs twice", crate::refcbor::diag(&m[i].0)));
+                            // a typed Mint holding one policy in two entries (Mint::insert appends) is named as
+                            // such; the builder never produces one, so in builder mode it stays the generic kind
+                            let kind = if self.mint_outer && !self.builder_mode { "typed-mint-holds-a-policy-in-two-entries" } else { "duplicate-map-key" };
+                            self.err(kind, format!("key {} occurs twice", crate::refcbor::diag(&m[i].0)));
                         }
                     }
                 }
@@ -321,7 +326,10 @@ impl<'a> V<'a> {
         self.bytes_max(n, 32, "asset_name")
     }
     pub fn multiasset(&mut self, n: &Node, mint: bool) {
-        if let Some(m) = self.map(n) {
+        self.mint_outer = mint;
+        let outer = self.map(n);
+        self.mint_outer = false;
+        if let Some(m) = outer {
             if m.is_empty() && (self.builder_mode || mint) {
                 self.err("empty-multiasset", "multiasset map is empty".into());
             }
